@@ -465,6 +465,7 @@ class Engine:
     def run(self):
         st = State()
         self.c.params(self, st)
+        self.pre_pc = list(st.pc)          # the precondition, for the vacuity guard (must not be unsatisfiable)
         for (s, status) in self.block(self.c.body(self.fn), st):
             if status == "fall":
                 status = ("return", None)
